@@ -78,13 +78,31 @@ theorem drain_safe : safeOn CliDrain.codec (CliDrain.bad current) certDrain := b
 theorem current_inv {s : St} (h : Reachable (sys current) s) : bad current s = false :=
   safe_of_cert current_closed current_safe h
 
-theorem bad_false {p : Params} {s : St} (h : bad p s = false) :
-    badStale s = false ∧ badReuse s = false ∧ badOverflow s = false ∧ badPanic s = false ∧
-    badTx s = false ∧ badAfterClose s = false ∧ badRecover s = false ∧ badHang p s = false ∧
-    badHandoff s = false ∧ badStuck p s = false ∧ s.raced = false := by
+/-- what `bad p s = false` says, predicate by predicate. -/
+structure Good (p : Params) (s : St) : Prop where
+  stale : badStale s = false
+  reuse : badReuse s = false
+  overflow : badOverflow s = false
+  panic : badPanic s = false
+  tx : badTx p s = false
+  afterClose : badAfterClose s = false
+  recover : badRecover s = false
+  hang : badHang p s = false
+  handoff : badHandoff s = false
+  stuck : badStuck p s = false
+  raced : s.raced = false
+  colour : badColour s = false
+  blocked : badCleanBlocked p s = false
+  measure : badMeasure p s = false
+
+theorem bad_false {p : Params} {s : St} (h : bad p s = false) : Good p s := by
   simp only [bad, Bool.or_eq_false_iff] at h
-  obtain ⟨⟨⟨⟨⟨⟨⟨⟨⟨⟨h1, h2⟩, h3⟩, h4⟩, h5⟩, h6⟩, h7⟩, h8⟩, h9⟩, h10⟩, h11⟩ := h
-  exact ⟨h1, h2, h3, h4, h5, h6, h7, h8, h9, h10, h11⟩
+  obtain ⟨⟨⟨⟨⟨⟨⟨⟨⟨⟨⟨⟨⟨h1, h2⟩, h3⟩, h4⟩, h5⟩, h6⟩, h7⟩, h8⟩, h9⟩, h10⟩, h11⟩, h12⟩, h13⟩, h14⟩ := h
+  exact ⟨h1, h2, h3, h4, h5, h6, h7, h8, h9, h10, h11, h12, h13, h14⟩
+
+/-- every reachable state of the current system is good. -/
+theorem current_good {s : St} (h : Reachable (sys current) s) : Good current s :=
+  bad_false (current_inv h)
 
 /-- no reachable state of a let-go connection is bad. -/
 theorem drain_inv {d : Option St} (h : Reachable (CliDrain.sys current) d) : CliDrain.bad current d = false :=
